@@ -337,6 +337,12 @@ func findGor(gs []gor, fn string) *gor {
 	return nil
 }
 
+// mutexBlocked: the goroutine waits for a sync.Mutex / RWMutex (a WaitGroup or a
+// semaphore wait shows the same "semacquire" state and is NOT taken for a lock).
+func mutexBlocked(g *gor) bool {
+	return lockBlocked(g.state) && (strings.Contains(g.text, "sync.(*Mutex).Lock") || strings.Contains(g.text, "sync.(*RWMutex).Lock") || strings.Contains(g.text, "sync.(*RWMutex).RLock"))
+}
+
 func lockBlocked(state string) bool {
 	switch state {
 	case "sync.Mutex.Lock", "sync.RWMutex.Lock", "sync.RWMutex.RLock", "semacquire":
@@ -553,7 +559,7 @@ func (r *connRun) wait() (state, info string) {
 		if g == nil {
 			continue // returning right now
 		}
-		if lockBlocked(g.state) {
+		if mutexBlocked(g) {
 			// Run's goroutine waits for a mutex. Every other goroutine that can
 			// touch these mutexes (the writing thread) holds them for nanoseconds and
 			// never blocks while holding one, so an identical blocked stack on
@@ -623,7 +629,7 @@ func (r *connRun) contended(m *sync.Mutex) bool {
 		}
 		gs := dumpGoroutines()
 		w := findGor(gs, "network.(*OneConnection).writing_thread")
-		if w == nil || lockBlocked(w.state) {
+		if w == nil || mutexBlocked(w) {
 			blockedSeen++
 			if blockedSeen >= 2 {
 				return true
@@ -658,22 +664,107 @@ func (r *connRun) drainQueues() (v *Violation) {
 	}
 	for len(network.NetTxs) > 0 {
 		ntx := <-network.NetTxs
-		func() {
-			defer func() {
-				if p := recover(); p != nil {
-					st := string(debug.Stack())
-					fn, loc, _ := site(st, true)
-					v = &Violation{Key: "mainthread/HandleNetTx/panic@" + fn + ":" + normMsg(fmt.Sprint(p)),
-						What: fmt.Sprintf("txpool.HandleNetTx panicked on a transaction queued by ParseTxNet: %v at %s (%s)", p, fn, loc), Stack: st}
-				}
-			}()
-			txpool.HandleNetTx(ntx)
-		}()
-		if v != nil {
+		if v = r.handleNetTx(ntx); v != nil {
 			return
 		}
 	}
 	return nil
+}
+
+// handleNetTx runs txpool.HandleNetTx the way the node's main thread does and watches
+// it: it verifies all inputs in parallel goroutines while holding txpool.TxMutex.
+func (r *connRun) handleNetTx(ntx *txpool.TxRcvd) *Violation {
+	type hret struct{ pan, st string }
+	ch := make(chan hret, 1)
+	go func() {
+		defer func() {
+			if p := recover(); p != nil {
+				ch <- hret{pan: fmt.Sprint(p), st: string(debug.Stack())}
+			}
+		}()
+		txpool.HandleNetTx(ntx)
+		ch <- hret{}
+	}()
+	fin := func(h hret) *Violation {
+		if h.pan == "" {
+			return nil
+		}
+		fn, loc, _ := site(h.st, true)
+		return &Violation{Key: "mainthread/HandleNetTx/panic@" + fn + ":" + normMsg(h.pan),
+			What: fmt.Sprintf("txpool.HandleNetTx panicked on a transaction queued by ParseTxNet: %v at %s (%s)", h.pan, fn, loc), Stack: h.st}
+	}
+	t0 := time.Now()
+	tm := time.NewTimer(50 * time.Millisecond)
+	select {
+	case h := <-ch:
+		tm.Stop()
+		return fin(h)
+	case <-tm.C:
+	}
+	last, same := "", 0
+	for {
+		tm.Reset(20 * time.Millisecond)
+		select {
+		case h := <-ch:
+			tm.Stop()
+			return fin(h)
+		case <-tm.C:
+		}
+		gs := dumpGoroutines()
+		main := findGor(gs, "txpool.HandleNetTx(")
+		if main == nil {
+			continue
+		}
+		// the main thread either waits for a mutex itself or for its script-check
+		// goroutines (WaitGroup); it is stuck for good when every one of those waits
+		// for a mutex: nobody else is running (Run is parked in Conn.Read, the
+		// writing thread touches only the connection's own mutex)
+		var blocked []string
+		stuck := mutexBlocked(main)
+		if !stuck {
+			workers, all := 0, true
+			for i := range gs {
+				if strings.Contains(gs[i].text, "txpool.processTx.func") && gs[i].id != main.id {
+					workers++
+					if mutexBlocked(&gs[i]) {
+						blocked = append(blocked, gs[i].text)
+					} else {
+						all = false
+					}
+				}
+			}
+			stuck = workers > 0 && all && strings.Contains(main.text, "sync.(*WaitGroup).Wait")
+		} else {
+			blocked = []string{main.text}
+		}
+		if stuck {
+			sort.Strings(blocked)
+			sig := main.text + strings.Join(blocked, "\n")
+			if sig == last {
+				same++
+			} else {
+				last, same = sig, 0
+			}
+			if same >= 3 {
+				fn, loc, _ := site(blocked[0], false)
+				held := ""
+				if !txpool.TxMutex.TryLock() {
+					held = "; txpool.TxMutex stays locked, so every tx / inv / cmpctblock / getdata handler of every peer blocks next"
+				} else {
+					txpool.TxMutex.Unlock()
+				}
+				return &Violation{Key: "mainthread/HandleNetTx/deadlock@" + fn, Stack: blocked[0] + "\n\n" + main.text,
+					What: fmt.Sprintf("txpool.HandleNetTx (the node's main thread) blocks forever on a transaction queued by ParseTxNet: %d input check(s) wait for a mutex at %s (%s) that nobody will release%s", len(blocked), fn, loc, held)}
+			}
+		} else {
+			last, same = "", 0
+		}
+		if time.Since(t0) > watchdog {
+			fn, loc, _ := site(main.text, false)
+			return &Violation{Key: "mainthread/HandleNetTx/hang", Stack: main.text,
+				What: fmt.Sprintf("txpool.HandleNetTx did not return within %v on a transaction queued by ParseTxNet (at %s, %s)", watchdog, fn, loc)}
+		}
+	}
 }
 
 func heldSuffix(h []string) string {
@@ -871,7 +962,8 @@ func runNet(n *nodeEnv, cs *Case) (res Result) {
 		cn = append(cn, k)
 	}
 	sort.Strings(cn)
-	res.Outcome = fmt.Sprintf("ban=%s why=%s mis=%d ver=%v b2g=%d bip=%d [%s]", o.BanReason, strings.SplitN(o.WhyDisc, ":", 2)[0], o.Misbehave, o.VersionReceived, network.VerifB2GCount(), o.BlocksInProgress, strings.Join(cn, " "))
+	res.Outcome = fmt.Sprintf("ban=%s why=%s mis=%d ver=%v b2g=%d bip=%d mp=%d/%d [%s]", o.BanReason, strings.SplitN(o.WhyDisc, ":", 2)[0], o.Misbehave, o.VersionReceived, network.VerifB2GCount(), o.BlocksInProgress,
+		len(txpool.TransactionsToSend), len(txpool.TransactionsRejected), strings.Join(cn, " "))
 	if o.Ticks > 1+scriptedTicks {
 		res.Disturbed = true
 	}
